@@ -1,1 +1,308 @@
-//! placeholder
+//! C18: however large the node table, property store, relationship segments, indexes, vectors or
+//! statistics grow, and in whatever order, writing one of them never changes the stored content
+//! of another; the database stays readable and correct after reopen.
+//!
+//! Two monitors run together on generated growth histories:
+//! * page-ownership checker (online, via the `page` hook that runs inside `&mut Pager` methods): a
+//!   page belongs to the structure class (source file of the caller) that obtained it from
+//!   `allocate_page`, or that first `ensure_allocated` it while it was free; a write or an
+//!   `ensure_allocated` by another class on an owned page is a cross-structure write;
+//! * model monitor: after the history and after a reopen the dump must equal the reference model.
+
+use crate::common::dump::Universe;
+use crate::common::model::{Model, Op, W, diff_facts};
+use crate::common::report::{Args, CaseOut, Report, Violation, par_cases, threads};
+use crate::common::rng::Rng;
+use crate::common::sut::{ScratchDir, Sut};
+use crate::common::{diff_signature, facts_diff_json};
+use ndb_core::PropertyValue as PV;
+use ndb_core::verif::{Hooks, PageOp};
+use serde_json::json;
+use std::collections::{BTreeMap, BTreeSet};
+use std::panic::Location;
+use std::sync::{Arc, Mutex};
+use std::time::{Duration, Instant};
+
+#[derive(Default)]
+struct OwnerState {
+    owner: BTreeMap<u64, String>,
+    /// (writer class, owner class, op) -> first page id seen
+    cross: BTreeMap<(String, String, String), u64>,
+    writes: u64,
+    allocs: u64,
+    classes: BTreeSet<String>,
+    /// pages allocated per class (growth of each structure)
+    pages_by_class: BTreeMap<String, u64>,
+}
+
+struct Owners {
+    st: Mutex<OwnerState>,
+}
+
+fn class_of(loc: &'static Location<'static>) -> String {
+    loc.file().rsplit('/').next().unwrap_or("?").to_string()
+}
+
+impl Hooks for Owners {
+    fn page(&self, op: PageOp, page_id: u64, caller: &'static Location<'static>) {
+        let cls = class_of(caller);
+        let mut st = self.st.lock().unwrap();
+        st.classes.insert(cls.clone());
+        match op {
+            PageOp::Allocate => {
+                st.allocs += 1;
+                *st.pages_by_class.entry(cls.clone()).or_default() += 1;
+                st.owner.insert(page_id, cls);
+            }
+            PageOp::Free => {
+                st.owner.remove(&page_id);
+            }
+            PageOp::EnsureAllocated => match st.owner.get(&page_id).cloned() {
+                None => {
+                    *st.pages_by_class.entry(cls.clone()).or_default() += 1;
+                    st.owner.insert(page_id, cls);
+                }
+                Some(o) if o != cls => {
+                    st.cross.entry((cls, o, "claims".into())).or_insert(page_id);
+                }
+                _ => {}
+            },
+            PageOp::Write => {
+                st.writes += 1;
+                match st.owner.get(&page_id).cloned() {
+                    Some(o) if o != cls => {
+                        st.cross.entry((cls, o, "writes".into())).or_insert(page_id);
+                    }
+                    // a write to a page nobody allocated is judged by the allocator itself
+                    _ => {}
+                }
+            }
+        }
+    }
+}
+
+fn big_value(rng: &mut Rng) -> PV {
+    match rng.below(4) {
+        0 => PV::String("x".repeat(9000 + rng.below(9000))), // more than one page: blob chain
+        1 => PV::String("y".repeat(200 + rng.below(2000))),
+        2 => PV::Int(rng.range(-1000, 1000)),
+        _ => PV::List((0..rng.below(40)).map(|i| PV::Int(i as i64)).collect()),
+    }
+}
+
+/// family 0/1: many nodes (crossing the 512-record page boundary of the node table) with other
+/// structures growing in between; family 2: few nodes, heavy growth of everything else.
+fn gen_history(seed: u64, k: usize) -> (usize, Vec<Op>, Model) {
+    let mut rng = Rng::derive(seed, k as u64);
+    let fam = k % 3;
+    let target_nodes = match fam {
+        0 => 520 + rng.below(200),
+        1 => 1030 + rng.below(300),
+        _ => 60 + rng.below(200),
+    };
+    let mut m = Model::default();
+    let mut h: Vec<Op> = Vec::new();
+    let mut next_ext = 10_000u64;
+    let labels = ["A", "B", "C"];
+    let keys = ["k", "p", "q"];
+    let push = |h: &mut Vec<Op>, m: &mut Model, op: Op| {
+        m.apply_op(&op);
+        h.push(op);
+    };
+    while m.nodes.len() < target_nodes {
+        // a batch of nodes
+        let batch = (20 + rng.below(180)).min(target_nodes - m.nodes.len());
+        let mut ws = Vec::new();
+        for _ in 0..batch {
+            ws.push(W::CreateNode { ext: next_ext, labels: vec![rng.pick(&labels).to_string()] });
+            next_ext += 1;
+        }
+        push(&mut h, &mut m, Op::Tx { writes: ws, commit: true });
+        // growth of the other structures, in random order
+        let n_other = if fam == 2 { 3 + rng.below(5) } else { 1 + rng.below(3) };
+        for _ in 0..n_other {
+            let n_nodes = m.nodes.len() as u32;
+            match rng.below(6) {
+                0 | 1 => {
+                    let mut ws = Vec::new();
+                    for _ in 0..1 + rng.below(6) {
+                        let val = big_value(&mut rng);
+                        let key = if matches!(&val, PV::String(_) | PV::List(_)) { "p".to_string() } else { rng.pick(&keys).to_string() };
+                        ws.push(W::SetNodeProp { node: rng.below(n_nodes as usize) as u32, key, val });
+                    }
+                    push(&mut h, &mut m, Op::Tx { writes: ws, commit: true });
+                }
+                2 => {
+                    let mut ws = Vec::new();
+                    for _ in 0..1 + rng.below(30) {
+                        let (s, d) = (rng.below(n_nodes as usize) as u32, rng.below(n_nodes as usize) as u32);
+                        let t = rng.pick(&["R", "S"]).to_string();
+                        if !m.edges.contains_key(&(s, t.clone(), d)) && !ws.iter().any(|w| matches!(w, W::CreateEdge { src, typ, dst } if *src == s && *typ == t && *dst == d)) {
+                            ws.push(W::CreateEdge { src: s, typ: t, dst: d });
+                        }
+                    }
+                    if !ws.is_empty() {
+                        push(&mut h, &mut m, Op::Tx { writes: ws, commit: true });
+                    }
+                }
+                3 => push(&mut h, &mut m, Op::Compact),
+                4 => {
+                    let op = Op::CreateIndex { label: rng.pick(&labels).to_string(), field: rng.pick(&["k", "q"]).to_string() };
+                    push(&mut h, &mut m, op);
+                }
+                _ => {
+                    let mut ws = Vec::new();
+                    for _ in 0..1 + rng.below(12) {
+                        ws.push(W::SetVector { node: rng.below(n_nodes as usize) as u32, vec: vec![rng.f64_unit() as f32, rng.f64_unit() as f32, rng.f64_unit() as f32] });
+                    }
+                    push(&mut h, &mut m, Op::Tx { writes: ws, commit: true });
+                }
+            }
+        }
+    }
+    push(&mut h, &mut m, Op::Compact);
+    (fam, h, m)
+}
+
+fn run_case(seed: u64, k: usize, out: &mut CaseOut) -> Vec<Violation> {
+    let (fam, h, model) = gen_history(seed, k);
+    let owners = Arc::new(Owners { st: Mutex::new(OwnerState::default()) });
+    ndb_core::verif::install_thread(owners.clone() as Arc<dyn Hooks>);
+    let mut viols = Vec::new();
+    let dir = ScratchDir::new("c18");
+    let keys: Vec<String> = ["k", "p", "q"].iter().map(|s| s.to_string()).collect();
+    let types: Vec<String> = ["R", "S"].iter().map(|s| s.to_string()).collect();
+    let uni = Universe { keys: &keys, types: &types };
+    let famname = ["512-boundary", "1024-boundary", "few-nodes-heavy-growth"][fam];
+    let replay = json!({"engine":"storemon","property":"C18","seed":seed,"case":k});
+    let mut step_failure: Option<String> = None;
+    let mut sut = match Sut::open(&dir.db_base()) {
+        Ok(s) => Some(s),
+        Err(_) => {
+            out.inconclusive("open");
+            None
+        }
+    };
+    if let Some(s) = sut.as_mut() {
+        for (i, op) in h.iter().enumerate() {
+            if let Err(e) = s.apply(op) {
+                step_failure = Some(format!("step {i} failed: {e}"));
+                break;
+            }
+        }
+    }
+    let spill = {
+        let st = owners.st.lock().unwrap();
+        st.cross.keys().any(|(w, _, _)| w == "idmap.rs")
+    };
+    let ctx = if spill { "after-node-table-spilled-into-foreign-pages" } else { "no-cross-structure-write-observed" };
+    if let Some(s) = sut.as_mut() {
+        out.evaluations += 1;
+        out.count(&format!("histories.{famname}"), 1);
+        out.count("nodes_created", model.nodes.len() as u64);
+        if let Some(f) = &step_failure {
+            // a failing operation is not by itself a cross-structure corruption; the history ends here
+            out.inconclusive(&format!("history-step-failed:{}", crate::storemon::normalise_msg(f)));
+        } else {
+            let want = model.facts();
+            let got = s.dump(&uni);
+            let d = diff_facts(&want, &got, usize::MAX);
+            if !d.is_empty() {
+                viols.push(Violation {
+                    signature: format!("C18|content-differs-before-reopen:{}|{ctx}", diff_signature(&d)),
+                    summary: format!("after the growth history the dump differs from the model in {} facts", d.len()),
+                    detail: json!({"family": famname, "diff": facts_diff_json(&d[..d.len().min(12)], "model", "database")}),
+                    replay: replay.clone(),
+                });
+            }
+            match s.apply(&Op::Reopen { close: k % 2 == 0 }) {
+                Err(e) => viols.push(Violation {
+                    signature: format!("C18|reopen-failed:{}|{ctx}", crate::storemon::normalise_msg(&e.to_string())),
+                    summary: format!("the database does not reopen after the growth history: {e}"),
+                    detail: json!({"family": famname, "nodes": model.nodes.len()}),
+                    replay: replay.clone(),
+                }),
+                Ok(()) => {
+                    out.count("reopen_dumps_compared", 1);
+                    let got = s.dump(&uni);
+                    let d = diff_facts(&want, &got, usize::MAX);
+                    if !d.is_empty() {
+                        viols.push(Violation {
+                            signature: format!("C18|content-differs-after-reopen:{}|{ctx}", diff_signature(&d)),
+                            summary: format!("after reopen the dump differs from the model in {} facts", d.len()),
+                            detail: json!({"family": famname, "diff": facts_diff_json(&d[..d.len().min(12)], "model", "database")}),
+                            replay: replay.clone(),
+                        });
+                    }
+                }
+            }
+        }
+    }
+    drop(sut);
+    ndb_core::verif::uninstall_thread();
+    let st = owners.st.lock().unwrap();
+    out.count("page_writes_observed", st.writes);
+    out.count("page_allocations_observed", st.allocs);
+    for c in &st.classes {
+        out.cell(format!("class:{c}"));
+    }
+    for (c, n) in &st.pages_by_class {
+        out.count(&format!("pages_obtained.{c}"), *n);
+    }
+    let foreign_before_boundary = fam < 2 && st.pages_by_class.iter().any(|(c, n)| c != "idmap.rs" && *n > 0);
+    if foreign_before_boundary {
+        out.count("histories_crossing_a_node_table_page_boundary_with_foreign_allocations", 1);
+    }
+    out.cell(format!("{famname}:cross={}", !st.cross.is_empty()));
+    for ((w, o, opk), page) in &st.cross {
+        viols.push(Violation {
+            signature: format!("C18|cross-structure-page-write|{w} {opk} a page owned by {o}"),
+            summary: format!("{w} {opk} page {page}, which was allocated by {o}"),
+            detail: json!({"family": famname, "writer_class": w, "owner_class": o, "first_page": page, "nodes": model.nodes.len(), "history_ops": h.len()}),
+            replay: replay.clone(),
+        });
+    }
+    viols
+}
+
+pub fn main(args: &Args) -> Report {
+    let mut rep = Report::new(
+        "C18",
+        &args.tier,
+        args.seed,
+        "exploration",
+        "growth histories: batches of 20-200 nodes up to 520-1300 nodes (node-table page boundaries at 512 and 1024 records) or few nodes with heavy growth elsewhere, interleaved in random order with multi-page property values, relationship batches, compaction (segments, property store, statistics), index creation and vector insertions; online page-ownership checker over every allocate/ensure/write/free of the pager (owner = class that allocated the page), plus model equality of the dump before and after reopen. A cell is a structure class observed or (family, cross-write seen)",
+    );
+    rep.assume("a structure rewriting its own pages, or the allocator reusing a freed page, is not flagged");
+    if let Some(p) = &args.replay {
+        let j: serde_json::Value = serde_json::from_str(&std::fs::read_to_string(p).expect("read replay")).expect("json");
+        let mut out = CaseOut::default();
+        let v = run_case(j["seed"].as_u64().unwrap(), j["case"].as_u64().unwrap() as usize, &mut out);
+        out.violations.extend(v);
+        rep.out = out;
+        return rep;
+    }
+    let n = if args.thorough() { 300 } else { 18 };
+    let deadline = Instant::now() + Duration::from_secs(args.budget_s(150, 1500));
+    let seed = args.seed;
+    let (out, _) = par_cases(n, threads(), Some(deadline), |k| {
+        let mut out = CaseOut::default();
+        let v = run_case(seed, k, &mut out);
+        out.violations.extend(v);
+        if k < 2 {
+            let (_, h, m) = gen_history(seed, k);
+            let kinds: Vec<String> = h.iter().take(14).map(|o| match o {
+                Op::Tx { writes, .. } => format!("tx[{} writes, first={:?}]", writes.len(), writes.first().map(|w| format!("{w:?}").chars().take(40).collect::<String>())),
+                o => format!("{o:?}"),
+            }).collect();
+            out.samples.push(json!({"case": k, "nodes": m.nodes.len(), "ops": h.len(), "first_ops": kinds}));
+        }
+        out
+    });
+    rep.out = out;
+    let t = args.thorough();
+    rep.floor("histories crossing a node-table page boundary with foreign allocations", rep.counter("histories_crossing_a_node_table_page_boundary_with_foreign_allocations"), if t { 100 } else { 6 });
+    rep.floor("page writes observed", rep.counter("page_writes_observed"), if t { 200_000 } else { 10_000 });
+    rep.floor("reopen dumps compared", rep.counter("reopen_dumps_compared"), if t { 100 } else { 6 });
+    rep
+}
